@@ -10,9 +10,10 @@ from ..core import Batch, cN, cZ, cbool, clist, cnat, copt, cpair
 ID = "C20"
 LEVEL = "proof"
 PROP_FILE = "Properties/C20.v"
-PROOF_FILES = ["Gen/DsuGen.v", "Proofs/DsuGenProofs.v", "Proofs/DisjointSetProofs.v", "Proofs/TriplesProofs.v", "Model/DisjointSet.v", "Model/Triples.v"]
+PROOF_FILES = ["Gen/DsuGen.v", "Proofs/DsuGenProofs.v", "Proofs/DsuBinaryGenProofs.v", "Gen/BuildGen.v", "Proofs/BuildGenProofs.v", "Proofs/BuildGenTotalProofs.v", "Proofs/AllTreesGenProofs.v", "Proofs/AllTreesGenTotalProofs.v", "Proofs/DisjointSetProofs.v", "Proofs/TriplesProofs.v", "Model/DisjointSet.v", "Model/Triples.v"]
 TRUSTED = [
-    "translator translator/pyfun.py + the type table in translator/dsu_gen.py: utils/disjoint_set.py (DisjointSet: __init__, find, unite, __len__, to_list) is translated statement by statement into Gen/*.v on every run and proved equal to the hand-written model",
+    "translator translator/pyfun.py + the type table in translator/dsu_gen.py: utils/disjoint_set.py (DisjointSet: __init__, find, unite, __len__, to_list, binary with its local _binary) is translated statement by statement into Gen/DsuGen.v on every run and proved equal to the hand-written model (the order of list(set(...)) in binary() is a parameter the theorems quantify over; deepcopy of a DisjointSet is the value itself)",
+    "translator translator/pyfun.py (ninth extension) + translator/build_gen.py: tree_from_triples and all_trees_from_triples of utils/trees.py are translated into Gen/BuildGen.v on every run and proved equal to Model/Triples.v for all leaf and triple lists, errors included (built ete3 trees = name + list of children: Tree(), Tree(name=..), add_child, copy(); up pointers, distances, supports and features are not represented; `if not subtree` reads as `subtree is None`)",
     "model Model/DisjointSet.v of utils/disjoint_set.py (parent/rank lists, find on fuel S(max rank), union by rank, to_list, _binary recursion)",
     "model Model/Triples.v of tree_from_triples / all_trees_from_triples / tree_to_triples in utils/trees.py "
     "(recursion on fuel = number of leaves; set.pop() order of BreakUp as an explicit oracle)",
@@ -257,6 +258,8 @@ def pre_build(ctx):
     from translator import dsu_gen
     from .. import core
     changed = dsu_gen.regenerate(core.REPO)
+    from translator import build_gen
+    changed = build_gen.regenerate(core.REPO) or changed
     ctx.notes.append("Gen file of utils/disjoint_set.py " + ("regenerated (content changed)" if changed else "regenerated: unchanged"))
 
 
